@@ -477,6 +477,54 @@ class G:
         self.kinds.append("transpose")
         return out.name
 
+    def squeeze(self, x, dims):
+        X = self.T(x)
+        nm = self.name("squeeze")
+        shp = [d for i, d in enumerate(X.shape) if i not in dims]
+        out = self.act(nm + "_o", shp, X.scale[0], X.zp[0])
+        self.net.add_o(BO.SQUEEZE, [x], [out.name], "SqueezeOptions", dict(squeeze_dims=list(dims)), 1)
+        self.kinds.append("squeeze")
+        return out.name
+
+    def expand_dims(self, x, axis):
+        X = self.T(x)
+        nm = self.name("expand")
+        a = self.const(nm + "_ax", (), "int32", axis)
+        shp = list(X.shape)
+        shp.insert(axis if axis >= 0 else len(shp) + 1 + axis, 1)
+        out = self.act(nm + "_o", shp, X.scale[0], X.zp[0])
+        self.net.add_o(BO.EXPAND_DIMS, [x, a.name], [out.name], "ExpandDimsOptions", {}, 1)
+        self.kinds.append("expand_dims")
+        return out.name
+
+    def pack(self, xs, axis):
+        X = self.T(xs[0])
+        nm = self.name("pack")
+        shp = list(X.shape)
+        shp.insert(axis, len(xs))
+        out = self.act(nm + "_o", shp, X.scale[0], X.zp[0])
+        self.net.add_o(BO.PACK, list(xs), [out.name], "PackOptions", dict(values_count=len(xs), axis=axis), 2)
+        self.kinds.append("pack")
+        return out.name
+
+    def unpack(self, x, axis):
+        X = self.T(x)
+        nm = self.name("unpack")
+        n = X.shape[axis]
+        shp = [d for i, d in enumerate(X.shape) if i != axis]
+        outs = [self.act("%s_o%d" % (nm, i), shp, X.scale[0], X.zp[0]).name for i in range(n)]
+        self.net.add_o(BO.UNPACK, [x], outs, "UnpackOptions", dict(num=n, axis=axis), 2)
+        self.kinds.append("unpack")
+        return outs
+
+    def exp(self, x, oscale=None, ozp=None):
+        X = self.T(x)
+        nm = self.name("exp")
+        out = self.act(nm + "_o", X.shape, oscale, ozp)
+        self.net.add_o(BO.EXP, [x], [out.name], "ExpOptions", {}, 2)
+        self.kinds.append("exp")
+        return out.name
+
     # CPU-only / unsupported helpers
     def cpu_op(self, x, kind, other=None):
         """An operator Vela leaves on the CPU, shape-preserving, quantisation-preserving for the reference (identity-like semantics
@@ -1124,6 +1172,125 @@ def fam_tiny(seed):
     return g.finish([y], "tiny", "exact")
 
 
+def fam_shape_ops(seed):
+    """Rank-changing memory-only operators in the middle of a 4D flow (SQUEEZE / EXPAND_DIMS / PACK / UNPACK / SLICE / STRIDED_SLICE): each is rewritten into
+    reshapes, concatenation writes or read offsets, so the tensors on both sides must keep denoting the same bytes.  Exact class."""
+    r = rng_for("shape-ops", seed)
+    g = G(r, str(r.choice(["int8", "int8", "uint8", "int16"])))
+    t = int(r.integers(0, 6))
+    c = int(r.choice([4, 8, 16, 5, 24]))
+    act = int(r.choice([ACT_NONE, ACT_RELU]))
+    if t == 0:
+        # squeeze a unit height away, work on the 3D tensor, expand it again at another position
+        w = int(r.choice([4, 8, 12, 33]))
+        x = g.conv(g.input([1, 1, w, c]), c, 1, 1, PAD_SAME, act)
+        y = g.squeeze(x, [1])  # [1, w, c]
+        if r.integers(0, 2):
+            y = g.unary("relu", y)
+        elif r.integers(0, 2):
+            y = g.eltwise(str(r.choice(["add", "mul"])), y, g.const_act([1, 1, c]))
+        ax = int(r.choice([1, 2]))
+        z = g.expand_dims(y, ax)  # [1, 1, w, c] or [1, w, 1, c]
+        out = g.conv(z, int(r.choice([4, 8, 16])), 1, 1, PAD_SAME, act)
+    elif t == 1:
+        # squeeze the batch, elementwise on 3D, expand the batch back (axis 0 / -4 spelled negatively in half of the cases)
+        h, w = int(r.choice([2, 4, 8])), int(r.choice([2, 4, 8]))
+        x = g.conv(g.input([1, h, w, c]), c, int(r.choice([1, 3])) if min(h, w) >= 3 else 1, 1, PAD_SAME, act)
+        y = g.squeeze(x, [0])
+        y = g.eltwise("add", y, g.const_act([h, w, c])) if r.integers(0, 2) else g.unary("relu6", y)
+        z = g.expand_dims(y, 0 if r.integers(0, 2) else -4)
+        out = g.pool(z, "maxpool", min(2, h, w), 1, PAD_SAME)
+    elif t == 2:
+        # PACK of two or three 3D branches along any axis, read back as 4D
+        h, w = int(r.choice([2, 4, 6])), int(r.choice([2, 4, 6]))
+        n = int(r.choice([2, 2, 3]))
+        unit = bool(r.integers(0, 3))  # two thirds: the packed result keeps a leading dimension of one (height-one maps squeezed to [1, w, c])
+        if unit:
+            h = 1
+        x = g.input([1, h, w, c])
+        base = g.conv(x, c, 1, 1, PAD_SAME, ACT_NONE)
+        B = g.T(base)
+        brs = [base] + [g.conv(x, c, 1, 1, PAD_SAME, act, oscale=B.scale[0], ozp=B.zp[0]) for _ in range(n - 1)]
+        if unit:
+            brs3 = [g.squeeze(b_, [1]) if r.integers(0, 2) else g.reshape(b_, [1, w, c]) for b_ in brs]
+            ax = int(r.integers(1, 4))
+            p_ = g.pack(brs3, ax)  # [1, n, w, c] / [1, w, n, c] / [1, w, c, n]
+            tgt = {1: [1, n, w, c], 2: [1, 1, w * n, c], 3: [1, 1, w, c * n]}[ax]
+            z = g.reshape(p_, tgt) if ax != 1 or r.integers(0, 2) else p_
+        else:
+            brs3 = [g.reshape(b_, [h, w, c]) if r.integers(0, 2) else g.squeeze(b_, [0]) for b_ in brs]
+            ax = int(r.integers(0, 4))
+            p_ = g.pack(brs3, ax)
+            tgt = {0: [1, n * h, w, c], 1: [1, h, n * w, c], 2: [1, h, w * n, c], 3: [1, h, w, c * n]}[ax]
+            z = g.reshape(p_, tgt)
+        out = g.conv(z, int(r.choice([4, 8])), 1, 1, PAD_SAME, act) if r.integers(0, 2) else g.pool(z, "maxpool", 1, 1, PAD_SAME)
+    elif t == 3:
+        # UNPACK along a short axis, each part processed on its own, joined again
+        h, w = int(r.choice([2, 3, 4])), int(r.choice([2, 3, 4, 8]))
+        x = g.conv(g.input([1, h, w, c]), c, 1, 1, PAD_SAME, act)
+        x3 = g.squeeze(x, [0])
+        ax = int(r.choice([0, 0, 1])) if w <= 4 else 0
+        parts = g.unpack(x3, ax)  # n x [w, c] or [h, c]
+        rest = w if ax == 0 else h
+        X = g.T(x)
+        outs_ = []
+        for p_ in parts:
+            q_ = g.reshape(p_, [1, 1, rest, c])
+            k_ = int(r.integers(0, 3))
+            outs_.append(g.unary("relu", q_) if k_ == 0 else g.pool(q_, "maxpool", 1, 1, PAD_SAME, kw=min(3, rest)) if k_ == 1
+                         else g.conv(q_, c, 1, 1, PAD_SAME, ACT_NONE, oscale=X.scale[0], ozp=X.zp[0]))
+        out = g.concat(outs_, int(r.choice([1, 3])))
+    elif t == 4:
+        # SLICE / STRIDED_SLICE with offsets on several axes at once, followed by a padded window
+        h, w = int(r.choice([6, 8, 12])), int(r.choice([6, 8, 12]))
+        x = g.conv(g.input([1, h, w, c]), c, 1, 1, PAD_SAME, act)
+        bh, bw = int(r.integers(0, h - 3)), int(r.integers(0, w - 3))
+        sh, sw = int(r.integers(2, h - bh + 1)), int(r.integers(2, w - bw + 1))
+        bc = int(r.integers(0, c - 1)) if r.integers(0, 2) else 0
+        sc = int(r.integers(1, c - bc + 1)) if bc or r.integers(0, 2) else c
+        if r.integers(0, 2):
+            y = g.slice(x, [0, bh, bw, bc], [1, sh, sw, sc if r.integers(0, 2) or bc + sc < c else -1] if False else [1, sh, sw, sc])
+        else:
+            y = g.strided_slice(x, [0, bh, bw, bc], [1, bh + sh, bw + sw, bc + sc])
+        out = g.pool(y, "maxpool", min(3, sh, sw), 1, PAD_SAME) if r.integers(0, 2) else g.conv(y, 8, min(3, sh, sw), 1, PAD_SAME, act)
+    else:
+        # expand a 2D matrix (FC output) to 4D through two EXPAND_DIMS, convolve, squeeze back to 2D and feed another FC
+        n_in, n_mid = int(r.choice([8, 16, 30])), int(r.choice([8, 16, 12]))
+        x = g.fc(g.input([1, n_in]), n_mid, act)
+        y = g.expand_dims(g.expand_dims(x, 1), 1)  # [1, 1, 1, n_mid]
+        y = g.conv(y, n_mid, 1, 1, PAD_SAME, act)
+        z = g.squeeze(y, [1, 2])
+        out = g.fc(z, int(r.choice([4, 10])))
+    return g.finish([out], "shape-ops", "exact")
+
+
+def fam_approx_tail2(seed, tail=None):
+    """second list of approximated tails (kept apart from approx-tail so that its seed -> tail assignment stays what the recorded runs used): EXP through an
+    8-bit table with a free output quantisation, SQUARED_DIFFERENCE lowered to 32-bit elementwise arithmetic"""
+    r = rng_for("approx-tail2", seed)
+    tail = tail or ["exp", "sqdiff"][seed % 2]
+    g = G(r, "int8" if tail == "exp" or r.integers(0, 3) else "uint8")
+    h, w, c = int(r.choice([2, 4, 6, 8])), int(r.choice([2, 4, 6, 8])), int(r.choice([4, 8, 16, 5]))
+    x = g.input([1, h, w, c])
+    for _ in range(int(r.integers(0, 3))):
+        x = _rand_exact_op(g, x)
+    X = g.T(x)
+    if tail == "exp":
+        # inputs around zero with a spread of a few units, output scale chosen so that a good part of the table is not saturated
+        y = g.conv(x, int(r.choice([4, 8, 16])), 1, 1, PAD_SAME, int(r.choice([ACT_NONE, ACT_RELU_N1_1, ACT_NONE])), oscale=float(r.choice([0.01, 0.02, 0.03])), ozp=int(r.integers(-40, 90)))
+        Y = g.T(y)
+        top = float(np.exp((127 - Y.zp[0]) * Y.scale[0]))
+        out = g.exp(y, oscale=float(np.float32(top / float(r.choice([200.0, 255.0, 400.0])))), ozp=-128 if r.integers(0, 2) else int(r.integers(-128, -60)))
+    else:
+        _, hh, ww, cc = X.shape
+        a = g.conv(x, cc, 1, 1, PAD_SAME, ACT_NONE, oscale=float(r.choice([0.02, 0.05, 0.1])))
+        b = g.conv(x, cc, 1, 1, PAD_SAME, ACT_NONE, oscale=float(r.choice([0.02, 0.05, 0.1]))) if r.integers(0, 3) else g.const_act([1, 1, 1, cc], scale=0.05)
+        A, B = g.T(a), g.T(b)
+        m = max(A.scale[0], B.scale[0]) * 255.0
+        out = g.eltwise("sqdiff", *((a, b) if r.integers(0, 2) else (b, a)), oscale=float(np.float32(m * m / float(r.choice([255.0, 400.0, 1000.0])))), ozp=DT_RANGE[g.dtype][0] if r.integers(0, 2) else None)
+    return g.finish([out], "approx-tail2:" + tail, "approx", 1)
+
+
 FAMILIES = {
     "exact-chain": fam_exact_chain,
     "exact-dag": fam_exact_dag,
@@ -1138,6 +1305,8 @@ FAMILIES = {
     "tiny": fam_tiny,
     "stripe-resize": fam_stripe_resize,
     "mixed-width": fam_mixed_width,
+    "shape-ops": fam_shape_ops,
+    "approx-tail2": fam_approx_tail2,
 }
 
 
